@@ -157,8 +157,13 @@ struct Worker {
 static POOL: Mutex<Vec<&'static Worker>> = Mutex::new(Vec::new());
 
 /// Create the OS threads that will carry stolen jobs. Must be called while the arena is off.
+static READY: Mutex<usize> = Mutex::new(0);
+static READY_CV: Condvar = Condvar::new();
+
 pub fn init_pool(n: usize) {
     let mut pool = POOL.lock().unwrap();
+    let before = pool.len();
+    let target = n.max(before);
     while pool.len() < n {
         let w: &'static Worker = Box::leak(Box::new(Worker {
             slot: Mutex::new(None),
@@ -171,9 +176,26 @@ pub fn init_pool(n: usize) {
             .spawn(move || worker_loop(w))
             .expect("spawn pool thread");
     }
+    drop(pool);
+    // Wait until every new thread has finished its start-up (which allocates thread-local
+    // bookkeeping) and is parked: nothing of that may happen once the arena is switched on.
+    let mut ready = READY.lock().unwrap();
+    while *ready < target {
+        ready = READY_CV.wait(ready).unwrap();
+    }
 }
 
 fn worker_loop(w: &'static Worker) {
+    // Touch everything that initialises lazily per thread before reporting ready.
+    CURRENT.with(|c| c.set(usize::MAX));
+    let _ = std::thread::current().id();
+    let _ = std::thread::panicking();
+    let _ = std::panic::catch_unwind(|| std::panic::panic_any(crate::fault::Injected { kind: crate::fault::Kind::Clone, k: 0 }));
+    {
+        let mut r = READY.lock().unwrap();
+        *r += 1;
+        READY_CV.notify_all();
+    }
     loop {
         let job = {
             let mut g = w.slot.lock().unwrap();
